@@ -143,6 +143,12 @@ struct Sim {
             CMutableTransaction m = MakeTx({{coins[0].op}}, {{coins[0].c.value - 100, OpTrueSpk()}, {0, CScript() << OP_RETURN << std::vector<unsigned char>{1, 2, 3}}});
             txs.push_back(MakeTransactionRef(m));
             o.fees = fee_of();
+        } else if (kind == "opret_mid") {         // unspendable output BETWEEN two spendable ones (disconnect must still remove the later one)
+            if (!need(1)) return false;
+            CAmount v = coins[0].c.value;
+            CMutableTransaction m = MakeTx({{coins[0].op}}, {{v / 2, OpTrueSpk()}, {0, CScript() << OP_RETURN << std::vector<unsigned char>{4, 5}}, {v - v / 2 - 200, OpTrueSpk()}});
+            txs.push_back(MakeTransactionRef(m));
+            o.fees = fee_of();
         } else if (kind == "cb_plus1") {          // coinbase claims subsidy + fees + 1
             if (!need(1)) return false;
             txs.push_back(SpendTx({coins[0].op}, {coins[0].c.value - 1000}));
